@@ -127,16 +127,19 @@ def rule_args(chk):
                 tk = toks[0]
                 b = arm["body"]
                 ifs = [n for n in F.exprs(b, "If")]
-                ops = [(a["op"], F.lit(a["r"])) for a in F.exprs(b, "AssignOp") if (F.leftmost_var(a["l"]) or {}).get("name") == "brace_scope"]
+                ops = [(a["op"], F.lit(a["r"]), (F.leftmost_var(a["l"]) or {}).get("id")) for a in F.exprs(b, "AssignOp") if F.strip(a["l"]).get("k") == "Var"]
                 info[tk] = (ifs, ops, b)
-            okl = info.get("LeftParen", (0, [], 0))[1] in ([("AddAssign", ("int", 1))], [("Add", ("int", 1))])
+            lp = info.get("LeftParen", (0, [], 0))[1]
+            depth_var = lp[0][2] if len(lp) == 1 else None       # the nesting-depth counter is the variable '(' increments
+            okl = len(lp) == 1 and lp[0][:2] in (("AddAssign", ("int", 1)), ("Add", ("int", 1)))
             chk.ob("C12.args/open-paren", okl, "'(' increases the nesting depth" if okl else "'(' no longer increases brace_scope by 1", where(sm))
             rp = info.get("RightParen")
             okr = False
             if rp and rp[0]:
                 c = F.strip(rp[0][0]["cond"])
                 gt0 = c.get("k") == "Binary" and c["op"] == "Gt" and F.lit(c["r"]) == ("int", 0)
-                dec = rp[1] in ([("SubAssign", ("int", 1))], [("Sub", ("int", 1))])
+                dec = len(rp[1]) == 1 and rp[1][0][:2] in (("SubAssign", ("int", 1)), ("Sub", ("int", 1))) and rp[1][0][2] == depth_var
+                gt0 = gt0 and (F.leftmost_var(c["l"]) or {}).get("id") == depth_var
                 ends = any(x.get("k") == "Break" for x in F.walk(rp[0][0].get("else", {}))) and \
                     any(short(cc.get("fn") or "") == "push" for cc in F.exprs(rp[0][0].get("else", {}), "Call"))
                 okr = gt0 and dec and ends
@@ -146,7 +149,7 @@ def rule_args(chk):
             okc = False
             if cm and cm[0]:
                 c = F.strip(cm[0][0]["cond"])
-                eq0 = c.get("k") == "Binary" and c["op"] == "Eq" and F.lit(c["r"]) == ("int", 0) and (F.leftmost_var(c["l"]) or {}).get("name") == "brace_scope"
+                eq0 = c.get("k") == "Binary" and c["op"] == "Eq" and F.lit(c["r"]) == ("int", 0) and (F.leftmost_var(c["l"]) or {}).get("id") == depth_var
                 splits = any(short(cc.get("fn") or "") == "push" for cc in F.exprs(cm[0][0]["then"], "Call"))
                 nosplit = not any(short(cc.get("fn") or "") == "push" for cc in F.exprs(cm[0][0].get("else", {}), "Call"))
                 okc = eq0 and splits and nosplit
@@ -166,7 +169,8 @@ def rule_args(chk):
                     for ix in list(F.exprs(cc, "Index")) + [x for x in F.exprs(cc, "Call") if short(x.get("fn") or "") == "index"]:
                         iv = F.leftmost_var(ix["i"] if ix.get("k") == "Index" else ix["args"][1])
                         av = F.leftmost_var(ix["e"] if ix.get("k") == "Index" else ix["args"][0])
-                        if iv is not None and iv["id"] in bind and av is not None and av.get("name") == "args":
+                        apar = [q.get("pat", {}).get("id") for q in asm["params"] if "Vec<" in q.get("ty", "") or "[" in q.get("ty", "")]
+                        if iv is not None and iv["id"] in bind and av is not None and (av["id"] in apar or "PreprocessToken" in av.get("ty", "")):
                             idx_ok = True
                 push = [cc for cc in F.exprs(n.get("else", {}), "Call") if short(cc.get("fn") or "") == "push"]
                 clone_tok = any(short(x.get("fn") or "") == "clone" for cc in push for x in F.exprs(cc, "Call"))
